@@ -104,6 +104,9 @@ func scanLong(comment bool) stateFn {
 				break OpeningLoop
 			default:
 				if comment {
+					// Not a long comment after all: it is a short comment, which
+					// ends at the first line end - possibly the character just read.
+					l.backup()
 					l.ignore()
 					return scanShortComment
 				}
